@@ -129,7 +129,9 @@ def run_lc(ctx, prop, emit_cfgs, mc_cfgs, driver_args, clean_cfgs=(), what=""):
                     e["t"][0]["end"] += 1
                     return True
             return False
-        c.binding_selftest(ctx, "field", "LcTrace.tla", trace, consts, corrupt, max_cases=60, skip=set(v.known))
+        # the self-test runs with the known-finding switch OFF: inside the known-finding class KF_Table (correctly) accepts any
+        # inexact table, so a corrupted in-class case would be "accepted"; strict validation rejects every corrupted case
+        c.binding_selftest(ctx, "field", "LcTrace.tla", trace, dict(consts, KF_C08_Overlap=False), corrupt, max_cases=60)
     ctx.assumptions = ["TLC 1.8.0 / CommunityModules are correct", "evmap refresh semantics (a reader sees an entry after refresh())",
                        "driver projection: id renumbering relative to the smallest id of the case, field equality, tick conversion",
                        "1 tick = 1 s scaling preserves all threshold comparisons (values at and next to every threshold are in the alphabets)"]
